@@ -117,6 +117,7 @@ type w1 struct {
 	primHist map[string][]objVersion
 	replSeq  int
 	accepted map[string]bool
+	refACL   *refACL
 }
 
 func discardLogger() *slog.Logger { return slog.New(slog.NewTextHandler(io.Discard, nil)) }
@@ -191,6 +192,12 @@ func (n *bnode) stop() {
 // call performs one request against the node's current incarnation on a
 // broker-side task; ok=false means the connection died (crash) or was refused.
 func (n *bnode) call(req kmsg.Request, clientID string, after func(resp kmsg.Response)) (kmsg.Response, bool) {
+	return n.callT(req, clientID, nil, after)
+}
+
+// callT is call with a hook that learns the broker-side task name before the
+// request starts (write attribution).
+func (n *bnode) callT(req kmsg.Request, clientID string, pre func(task string), after func(resp kmsg.Response)) (kmsg.Response, bool) {
 	w := n.w
 	h, inc, ctx := n.h, n.inc, n.ctx
 	if h == nil {
@@ -202,7 +209,11 @@ func (n *bnode) call(req kmsg.Request, clientID string, after func(resp kmsg.Res
 	payload := kclient.EncodeRequest(req, corr, &clientID)
 	fut := w.sim.NewFuture(inc)
 	n.reqSeq++
-	w.sim.Spawn(fmt.Sprintf("%s/req%04d", inc, n.reqSeq), inc, false, func() {
+	taskName := fmt.Sprintf("%s/req%04d", inc, n.reqSeq)
+	if pre != nil {
+		pre(taskName)
+	}
+	w.sim.Spawn(taskName, inc, false, func() {
 		simrt.RaceObserve(unsafe.Pointer(&n.pub))
 		header, parsed, err := protocol.ParseRequest(payload)
 		if err != nil {
@@ -489,6 +500,8 @@ func (w *w1) clientOp(client, seq int, op simrt.Op) {
 		w.opHealthMeta(op)
 	case "create-topic":
 		w.opCreateTopic(client, op)
+	case "acl":
+		w.opACL(client, op)
 	default:
 		w1ExtraOp(w, client, seq, op)
 	}
@@ -515,7 +528,6 @@ func (w *w1) opProduce(client, seq int, op simrt.Op) {
 	n := w.node(int64(client))
 	rec.invoke = w.sim.Step()
 	rec.inc = n.inc
-	rec.task = fmt.Sprintf("%s/req%04d", n.inc, n.reqSeq+1)
 	w.ledger = append(w.ledger, rec)
 	req := kmsg.NewPtrProduceRequest()
 	req.Version = int16(w.cfg("produce_version", 9))
@@ -528,7 +540,7 @@ func (w *w1) opProduce(client, seq int, op simrt.Op) {
 	rp.Records = sent
 	rt.Partitions = append(rt.Partitions, rp)
 	req.Topics = append(req.Topics, rt)
-	resp, ok := n.call(req, fmt.Sprintf("c%d", client), func(r kmsg.Response) {
+	resp, ok := n.callT(req, fmt.Sprintf("c%d", client), func(task string) { rec.task = task }, func(r kmsg.Response) {
 		pr := r.(*kmsg.ProduceResponse)
 		if len(pr.Topics) == 1 && len(pr.Topics[0].Partitions) == 1 {
 			p := pr.Topics[0].Partitions[0]
